@@ -41,6 +41,9 @@ type scen struct {
 	Strat   string     `json:"strategy"`
 	Choices []byte     `json:"choices,omitempty"`
 	Note    string     `json:"note,omitempty"`
+	// Wrap: a second copy of the expired marker is recorded 2^32 ms (+1) before the run (49.7 days of idling):
+	// bucket ages must not be computed modulo 2^32
+	Wrap bool `json:"wrap,omitempty"`
 }
 
 var run *vk.Run
@@ -51,6 +54,7 @@ func genScen(rng *rand.Rand) *scen {
 	s.Family = vk.PickS(rng, "warm", "cold", "cold", "boundary", "boundary")
 	s.N = vk.PickU32(rng, 1, 2, 2, 3, 20)
 	s.L = vk.PickU32(rng, 10, 500)
+	s.Wrap = rng.Intn(8) == 0
 	nw := 2 + rng.Intn(2)
 	for w := 0; w < nw; w++ {
 		var ops []opDesc
@@ -141,6 +145,13 @@ func execute(s *scen, ch coop.Chooser) (*coop.Result, string, string) {
 	}
 	// target: bucket [T, T+L) maps to slot 0 again, several cycles later
 	T := tCreate + 7*cycle
+	if s.Wrap {
+		T = tCreate + (uint64(1)<<33)/cycle*cycle // far enough for a second marker 2^32 ms before the run
+		clk.SetMs(T + 3 - (uint64(1) << 32) - 1)
+		for ev := 0; ev < 5; ev++ {
+			arr.AddCount(base.MetricEvent(ev), marker)
+		}
+	}
 	var adds []*addRec
 	var reads []*readRec
 	var ops []*opRec
